@@ -644,6 +644,14 @@ impl DefaultPartitioner {
     }
 }
 
+#[cfg(feature = "verif_hooks")]
+impl<H> Producer<DefaultPartitioner<H>> {
+    /// Verification hook: sets the default partitioner's round-robin counter.
+    pub fn verif_set_partitioner_counter(&mut self, cntr: u32) {
+        self.state.partitioner.cntr = cntr;
+    }
+}
+
 impl<H: BuildHasher> Partitioner for DefaultPartitioner<H> {
     #[allow(unused_variables)]
     fn partition(&mut self, topics: Topics<'_>, rec: &mut client::ProduceMessage<'_, '_>) {
